@@ -33,7 +33,7 @@ def gen(tier, rng):
                     continue
                 g += 1
                 seed = rng.randint(1, 10 ** 9)
-                cpu = rz.CPUS[n % 3]
+                cpu = rz.pick(n, 126, rz.CPUS)
                 layouts = [("dyn", p) for p in DYN_PAIRS + EXTRA_DYN] + [("typed", p) for p in TYPED_PAIRS + EXTRA_TYPED]
                 for j, (api, (slay, dlay)) in enumerate(layouts):
                     guard = 1 if j % 3 else 2
@@ -57,7 +57,7 @@ def gen(tier, rng):
             for j, (api, (slay, dlay)) in enumerate(layouts):
                 cases.append(rz.img_case(op, dpt, w, h, src_pt=spt, src_c={"g": "rand", "seed": seed, "flo": 0.0, "fhi": 1.0},
                                          src_lay=lay_with_guard(slay, 1) if slay else None,
-                                         dst_lay=lay_with_guard(dlay, 1) if dlay else {"k": "image"}, api=api, cpu=rz.CPUS[g % 3],
+                                         dst_lay=lay_with_guard(dlay, 1) if dlay else {"k": "image"}, api=api, cpu=rz.pick(g, 127, rz.CPUS),
                                          log=("digest",), chk=("ret_ok", "outside", "srcsame") + (("memo_exact",) if j else ()), g=g,
                                          mapper=mp[0] if mp else None, direction=mp[1] if mp else None))
     return cases
